@@ -30,8 +30,9 @@ type Machine struct {
 	W    *World
 	Hist []Step
 
-	CallKinds []string // call-data kinds used by ActSend
-	Accepted  int      // accepted protocol messages so far
+	UseCallback bool     // ActSend names the counter contract as callback address in a third of the sends
+	CallKinds   []string // call-data kinds used by ActSend
+	Accepted    int      // accepted protocol messages so far
 
 	// Ledger (model of the endpoint views, from observed events only).
 	Out  map[string]*big.Int // chain|token|dst  -> expected outTokens
@@ -216,7 +217,11 @@ func (m *Machine) ActSend(t *rapid.T) {
 		call = "agent:" + rapid.SampledFrom(finals).Draw(t, "agentFinal")
 		agentFee = big.NewInt(rapid.Int64Range(0, 2).Draw(t, "agentFee"))
 	}
-	out := w.Send(SendSpec{Src: src, DstName: w.Chains[dst].ChainID, User: user, Token: tok, Amount: amt, Fee: fee, Receiver: recv, Call: call, AgentFee: agentFee}, m.OnSend != nil)
+	var callback common.Address
+	if m.UseCallback && rapid.IntRange(0, 2).Draw(t, "withCallback") == 0 {
+		callback = w.Counter
+	}
+	out := w.Send(SendSpec{Src: src, DstName: w.Chains[dst].ChainID, User: user, Token: tok, Amount: amt, Fee: fee, Receiver: recv, Call: call, AgentFee: agentFee, Callback: callback}, m.OnSend != nil)
 	m.Log("send", fmt.Sprintf("%d>%d %s amt=%s fee=%s call=%s", src, dst, w.TokName(src, tok), amt, fee, call), fmt.Sprintf("ok=%v", out.OK))
 	if out.OK {
 		m.R.Label("send_ok")
